@@ -150,3 +150,28 @@ Definition no_stuck_stmt : Prop :=
   forall progs g, reachable true (init progs) g -> misuse g = false ->
   (exists th, In th (threads g) /\ unfinished th = true) ->
   exists t g', step true g t = Some g'.
+
+(* every id a thread is about to dereference exists (a well-formedness property of reachable
+   configurations: ids come from slot tables, c_h, resolvedHook, which only ever hold ids of
+   allocated objects) *)
+Definition ids_ok (g : config) : Prop :=
+  forall t th, nth_error (threads g) t = Some th ->
+  match t_pc th with
+  | CLock _ c | FLock _ c => c < length (clients g)
+  | CWalk _ _ cur | WWalk _ _ cur | FWalk _ _ _ cur => cur < length (hooks g)
+  | InCall h | CallFin h | WaitDone h => h < length (hooks g)
+  | FMark p _ _ => p < length (hooks g)
+  | Idle => True
+  end%nat.
+
+(* the part of no_stuck that is proved (CapProofs.no_stuck_partial): as [no_stuck_stmt], for
+   configurations that are well-formed in the sense of [ids_ok] and in which no Fulfill is
+   inside its transfer walk (the only place where a hook mutex is held across steps).
+   Missing for the full statement: (1) [ids_ok] as an invariant of [reachable], (2) the
+   acyclicity argument for chains of concurrent Fulfill walks waiting for each other
+   (needs the model to flag resolution cycles longer than one as misuse). *)
+Definition no_stuck_partial_stmt : Prop :=
+  forall progs g, reachable true (init progs) g -> misuse g = false -> ids_ok g ->
+  (forall t p n c cur, ~ pc_of g t (FWalk p n c cur)) ->
+  (exists th, In th (threads g) /\ unfinished th = true) ->
+  exists t g', step true g t = Some g'.
